@@ -83,7 +83,7 @@ pub open spec fn l_wf(n: int, lp: Seq<usize>, li: Seq<usize>, lx: Seq<F>) -> boo
         invariant x@.len() == old(x)@.len(), l_wf(x@.len() as int, Lp@, Li@, Lx@),
 //@loop 2
             invariant x@.len() == old(x)@.len(), l_wf(x@.len() as int, Lp@, Li@, Lx@), i < x@.len(), f == Lp@[i as int], l == Lp@[i + 1],
-                r14_n1 <= l - f,
+                r14_n1 <= l - f, r14_lo1_0 == f, r14_lo1_1 == f,
 //@end
 //@fn file=src/qdldl/qdldl.rs name=_dltsolve_unsafe rules=R1,R10,zipidx:2
 //@contract
@@ -93,7 +93,7 @@ pub open spec fn l_wf(n: int, lp: Seq<usize>, li: Seq<usize>, lx: Seq<F>) -> boo
         invariant x@.len() == old(x)@.len(), l_wf(x@.len() as int, Lp@, Li@, Lx@), Dinv@.len() >= x@.len(),
 //@loop 2
             invariant x@.len() == old(x)@.len(), l_wf(x@.len() as int, Lp@, Li@, Lx@), i < x@.len(), f == Lp@[i as int], l == Lp@[i + 1],
-                r14_n1 <= l - f,
+                r14_n1 <= l - f, r14_lo1_0 == f, r14_lo1_1 == f,
 //@end
 //@fn file=src/qdldl/qdldl.rs name=_ltsolve_unsafe rules=R1,R10,zipidx:2
 //@contract
@@ -103,7 +103,7 @@ pub open spec fn l_wf(n: int, lp: Seq<usize>, li: Seq<usize>, lx: Seq<F>) -> boo
         invariant x@.len() == old(x)@.len(), l_wf(x@.len() as int, Lp@, Li@, Lx@),
 //@loop 2
             invariant x@.len() == old(x)@.len(), l_wf(x@.len() as int, Lp@, Li@, Lx@), i < x@.len(), f == Lp@[i as int], l == Lp@[i + 1],
-                r14_n1 <= l - f,
+                r14_n1 <= l - f, r14_lo1_0 == f, r14_lo1_1 == f,
 //@end
 //@fn file=src/qdldl/qdldl.rs name=_solve rules=R1
 //@contract
